@@ -34,6 +34,8 @@ def gen_fact(rng, n, cols=None, allow_int=True, garbage=True):
         vals = [rng.randint(-5, 9) for _ in range(size)]
     else:
         vals = [rng.choice((0.0, 1.0, 2.5, -1.5, 3.0, 0.25, 7.0, rng.uniform(-4, 4))) for _ in range(size)]
+        if size and rng.random() < 0.06:
+            vals[rng.randrange(size)] = rng.choice((float("inf"), float("-inf")))
     layout = rng.choice(("plain", "plain", "strided", "readonly", "fortran", "list"))
     if form == "nan":
         vals = [v if ok else NAN for v, ok in zip(vals, validity)]
@@ -139,10 +141,18 @@ def gen_workload(rng, scaffold_lo=3, scaffold_hi=24, max_rows=24, max_aggs=3, ki
     n = rng.choice((1, 2, 3, 5, 8, 12, rng.randint(0, max_rows)))
     dims, ishape = gen_dims(rng, n, scaffold_lo, scaffold_hi)
     aggs = [gen_agg(rng, kind, n) for _ in range(rng.randint(1, max_aggs))]
+    strict = rng.random() < 0.12
+    if strict and rng.random() < 0.6:
+        # a caller that turns warnings into errors is most interesting with values NumPy warns about
+        for a in aggs:
+            arr = a.get("arr")
+            if arr and arr["dtype"] == "float" and arr["values"]:
+                arr["values"][rng.randrange(len(arr["values"]))] = rng.choice((float("inf"), float("-inf")))
     return {
         "cube": kind, "N": n, "dims": dims, "ishape": ishape, "aggs": aggs,
         "engage": rng.choice(("flag", "threshold")),
         "xdtype": rng.choice(("int64", "int32", "uint8", "int16")),
+        "warnings": "error" if strict else "ignore",
     }
 
 
@@ -257,9 +267,14 @@ def build_aggs(w):
     return [build_agg(w, s) for s in w["aggs"]]
 
 
+WARNINGS_MODE = ["ignore"]  # "error": the caller runs with warnings turned into exceptions (-W error)
+
+
 def evaluate(cube, aggs):
     with warnings.catch_warnings():
-        warnings.simplefilter("ignore")
+        warnings.simplefilter(WARNINGS_MODE[0])
+        if WARNINGS_MODE[0] == "error":
+            return cube.calculate(aggs)
         with numpy.errstate(all="ignore"):
             return cube.calculate(aggs)
 
